@@ -56,6 +56,12 @@ pub enum Ev {
     Rotate,
     /// Let virtual time pass until this many milliseconds after the world was created.
     AdvanceTo(u64),
+    /// Commands as a connection task would send them, for manager-only peers (no task behind them).
+    MgrBitfield(usize, Vec<bool>),
+    MgrInterested(usize),
+    MgrNotInterested(usize),
+    MgrStats(usize, Option<u32>, Option<u32>),
+    MgrKill(usize),
 }
 
 pub struct PeerSide {
@@ -87,6 +93,10 @@ pub struct World {
     /// Commands the manager handled during the last step (Debug, shortened).
     pub cmds: Vec<String>,
     pub choice_log: Vec<(usize, usize)>,
+    /// Broadcasts the manager sent during the last step.
+    pub broadcasts: Vec<BroadCmd>,
+    /// Addresses of manager-only peers (registered with the manager, no connection task).
+    pub mgr_peers: Vec<String>,
     start: tokio::time::Instant,
     pub steps: usize,
 }
@@ -139,6 +149,8 @@ impl World {
             handler_panics: vec![],
             cmds: vec![],
             choice_log: vec![],
+            broadcasts: vec![],
+            mgr_peers: vec![],
             start,
             steps: 0,
         };
@@ -185,12 +197,23 @@ impl World {
         self.peers.len() - 1
     }
 
+    /// Register a peer with the manager without a connection task behind it (E-MGR).
+    pub fn add_mgr_peer(&mut self) -> usize {
+        let k = self.mgr_peers.len();
+        let addr = format!("10.1.0.{}:6881", k + 1);
+        let job = self.local.spawn_local(async {});
+        self.session.verif_register_peer(addr.clone(), Some([k as u8 + 1; 20]), job);
+        self.mgr_peers.push(addr);
+        k
+    }
+
     pub fn step(&mut self, ev: &Ev, digits: &[usize]) {
         self.run_step(Some(ev), digits);
     }
 
     fn run_step(&mut self, ev: Option<&Ev>, digits: &[usize]) {
         self.cmds.clear();
+        self.broadcasts.clear();
         for p in self.peers.iter_mut() {
             p.new_from = p.msgs.len();
         }
@@ -199,7 +222,7 @@ impl World {
         }
         self.steps += 1;
         rdest::verif::set_choices(digits.to_vec());
-        let World { rt, local, session, peers, harness_rx, cmds, gated, start, .. } = self;
+        let World { rt, local, session, peers, harness_rx, cmds, gated, start, broadcasts, mgr_peers, .. } = self;
         let gated = *gated;
         let start = *start;
         let res = core::catch(|| {
@@ -221,6 +244,25 @@ impl World {
                     }
                     Some(Ev::AdvanceTo(ms)) => {
                         tokio::time::sleep_until(start + Duration::from_millis(*ms)).await;
+                    }
+                    Some(mgr_ev) => {
+                        use rdest::verif::{Bitfield, PeerCmd};
+                        let tx = session.verif_peer_tx();
+                        let cmd = match mgr_ev {
+                            Ev::MgrBitfield(k, bits) => {
+                                let (resp_ch, _rx) = tokio::sync::oneshot::channel();
+                                PeerCmd::RecvBitfield { addr: mgr_peers[*k].clone(), bitfield: Bitfield::from_vec(bits), resp_ch }
+                            }
+                            Ev::MgrInterested(k) => PeerCmd::RecvInterested { addr: mgr_peers[*k].clone() },
+                            Ev::MgrNotInterested(k) => {
+                                let (resp_ch, _rx) = tokio::sync::oneshot::channel();
+                                PeerCmd::RecvNotInterested { addr: mgr_peers[*k].clone(), resp_ch }
+                            }
+                            Ev::MgrStats(k, d, u) => PeerCmd::SyncStats { addr: mgr_peers[*k].clone(), downloaded_rate: *d, uploaded_rate: *u, unexpected_blocks: 0 },
+                            Ev::MgrKill(k) => PeerCmd::KillReq { addr: mgr_peers[*k].clone(), reason: "scripted".to_string() },
+                            _ => unreachable!(),
+                        };
+                        let _ = tx.send(cmd).await;
                     }
                     None => {}
                 }
@@ -252,6 +294,7 @@ impl World {
                     loop {
                         match harness_rx.try_recv() {
                             Ok(cmd) => {
+                                broadcasts.push(cmd.clone());
                                 for p in peers.iter_mut() {
                                     if gated {
                                         p.pending.push_back(cmd.clone());
